@@ -6,7 +6,8 @@ import ast
 
 from ..cfg import cfg_of
 from ..model import AnalysisError, call_name, calls_in, dotted, norm, walk_no_nested
-from .. import machines, rules
+from .. import machines, normal, rules
+from .. import conds as cnd
 
 MACHINES = ["ConnectionStateMachine", "CommunicationStateMachine", "ControlStateMachine"]
 EXPECTED_TRANSITIONS = {"ConnectionStateMachine": 5, "CommunicationStateMachine": 9, "ControlStateMachine": 17}
@@ -49,26 +50,27 @@ def check_transition_lookup(ctx):
            "the lookup does not compare transition.name with the requested name", key="lookup", where=f.where)
     cfg = cfg_of(fn)
     raises = [n for n in cfg.real_nodes() if isinstance(n.ast, ast.Raise) and "UnknownTransitionError" in norm(n.ast)]
-    guarded = False
-    for r in raises:
-        for t, v in cfg.dominating_conditions(r):
-            txt = norm(t)
-            if ("is None" in txt and v) or ("is not None" in txt and not v) or (isinstance(t, ast.UnaryOp) and v):
-                guarded = True
+    rets = [n for n in cfg.real_nodes() if isinstance(n.ast, ast.Return)]
+
+    def found(r):
+        """The facts at a return say that a transition was found: a name match, or the looked-up value is not None."""
+        fs = cnd.facts(cfg, r)
+        return any((t.endswith(" is None") and not pol) or (" == " in t and param in t.split(" == ") and ".name" in t and pol) for t, pol in fs)
+
+    guarded = bool(raises) and bool(rets) and all(found(r) for r in rets) and not cfg.path_exists(cfg.entry, cfg.exit, avoid=rets, no_exc=True) and all(cfg.path_exists(cfg.entry, r) for r in raises)
     ctx.ob("C18.P1", f.qualname, guarded, "an unknown transition name raises UnknownTransitionError" if guarded else
            "no raise of UnknownTransitionError when the lookup finds nothing: an unknown request would be silently accepted or crash later",
            key="unknown-raises", where=f.where)
     # every normal return returns the looked-up value (not a default transition)
-    rets = [n for n in cfg.real_nodes() if isinstance(n.ast, ast.Return)]
     ok = all(not cfg.path_exists(cfg.entry, r, avoid=[n for n in cfg.nodes if n.kind == "test"]) for r in rets) and bool(rets)
-    ctx.ob("C18.P1", f.qualname, ok, "the found transition is returned only after the None test" if ok else "a return bypasses the not-found test",
+    ctx.ob("C18.P1", f.qualname, ok, "the found transition is returned only after the found/not-found test" if ok else "a return bypasses the not-found test",
            key="return-after-test", where=f.where)
 
 
 def check_perform(ctx):
     f = ctx.repo.method("StateMachine", "_perform_transition", inherited=False)
     ctx.touch(f)
-    fn = f.node
+    fn = normal.normalised(ctx, f)
     q = f.qualname
     cfg = cfg_of(fn)
     # variable holding the transition
@@ -185,7 +187,7 @@ def check_state_methods(ctx):
     for meth, flag, event in (("enter", True, "enter"), ("leave", False, "leave")):
         f = repo.method("State", meth, inherited=False)
         ctx.touch(f)
-        fn = f.node
+        fn = normal.normalised(ctx, f)
         q = f.qualname
         cfg = cfg_of(fn)
         fires = [n for n in cfg.real_nodes() if any(c.endswith("events.fire") or c.endswith("_event_producer.fire") for c in n.call_names())]
@@ -212,23 +214,14 @@ def check_state_methods(ctx):
         # parent propagation statement
         param = fn.args.args[1].arg
         props = [n for n in cfg.real_nodes() if any(c == f"self.parent.{meth}" or c == f"self._parent.{meth}" for c in n.call_names())]
-        ok = len(props) == 1
-        ctx.ob("C18.O1", q, ok, "the parent is propagated to at one place" if ok else f"{len(props)} parent propagation calls (expected one)", key="propagate", where=f.where)
+        ok = len(props) >= 1
+        ctx.ob("C18.O1", q, ok, "the parent is propagated to" if ok else "no parent propagation call", key="propagate", where=f.where)
         if ok:
-            P = props[0]
-            conds = cfg.dominating_conditions(P)
-            cond_txt = sorted((norm(t).replace(param, "OTHER"), v) for t, v in conds)
-            call = next(c for c in P.calls if (call_name(c) or "").endswith(f"parent.{meth}"))
-            arg_txt = norm(call.args[0]).replace(param, "OTHER") if call.args else ""
-            facts[meth] = (cond_txt, arg_txt)
-            canonical_cond = [("self.parent is not None and (OTHER is None or OTHER.parent != self.parent)", True)]
-            canonical_arg = "OTHER.parent if OTHER is not None else None"
-            ok = cond_txt == canonical_cond and arg_txt == canonical_arg
-            if not ok:
-                # accept equivalent spellings by evaluating the condition over the finite abstraction
-                ok = _propagation_equivalent(conds, call, param)
-            ctx.ob("C18.O1", q, ok, "parent propagation: ascend iff a parent exists and the other state is absent or has a different parent, passing the other state's parent" if ok else
-                   f"parent propagation condition/argument deviates: if {cond_txt}: parent.{meth}({arg_txt})", key="propagation-cond", where=f.where)
+            table = _propagation_table(cfg, props, meth, param)
+            facts[meth] = table
+            ok = table is not None and all(v == "canonical" for v in table.values())
+            ctx.ob("C18.O1", q, ok, "parent propagation: ascend iff a parent exists and the other state is absent or has a different parent, passing the other state's parent (exactly one call)" if ok else
+                   f"parent propagation deviates from `if parent is not None and (OTHER is None or OTHER.parent != parent): parent.{meth}(OTHER.parent or None)`: {table}", key="propagation-cond", where=f.where)
     if "enter" in facts and "leave" in facts:
         ok = facts["enter"] == facts["leave"]
         ctx.ob("C18.O1", "State.enter/leave", ok, "enter and leave propagate to the parent under the same condition (siblings agree)" if ok else
@@ -243,31 +236,41 @@ def check_state_methods(ctx):
     ctx.ob("C18.O1", "State.__init__", init_ok, "a state starts active iff it is declared initial" if init_ok else "the initial active flag is not the `initial` argument", where=init.where)
 
 
-def _propagation_equivalent(conds, call, param) -> bool:
-    """Evaluate the guard and the argument over the finite abstraction
-    (self.parent in {None, P}, OTHER in {None, state with parent P, state with parent Q, state without parent})
-    and compare with the canonical rule.  Pure expression evaluation on abstract values, no library code runs."""
+def _propagation_table(cfg, props, meth, param):
+    """Evaluate the guards and the argument of every propagation call over the finite abstraction
+    (self.parent in {None, P}, OTHER in {None, state with parent P, state with parent Q, state without parent}) and
+    compare with the canonical rule: exactly one call happens iff a parent exists and OTHER is absent or has another
+    parent, and it passes OTHER's parent.  Pure expression evaluation on abstract values, no library code runs."""
     class S:  # abstract state
-        def __init__(self, parent):
+        def __init__(self, parent, label):
             self.parent = parent
+            self._parent = parent
+            self.label = label
 
-    P, Q = S(None), S(None)
-    ok = True
+    P, Q = S(None, "P"), S(None, "Q")
+    table = {}
     for self_parent in (None, P):
-        for other in (None, S(P), S(Q), S(None)):
-            env = {"self": S(self_parent), param: other}
+        for other in (None, S(P, "child of P"), S(Q, "child of Q"), S(None, "root")):
+            env = {"self": S(self_parent, "self"), param: other}
+            label = f"parent={'P' if self_parent else None}, other={other.label if other else None}"
             try:
-                guard = all(bool(eval(compile(ast.Expression(t), "<cond>", "eval"), {}, env)) == v for t, v in conds)  # noqa: S307 - abstract values only
-                canon = self_parent is not None and (other is None or other.parent is not self_parent)
-                if guard != canon:
-                    ok = False
-                if guard and canon:
-                    arg = eval(compile(ast.Expression(call.args[0]), "<arg>", "eval"), {}, env)  # noqa: S307
-                    if arg is not (other.parent if other is not None else None):
-                        ok = False
-            except Exception:
-                return False
-    return ok
+                active = []
+                for node in props:
+                    conds = cfg.dominating_conditions(node)
+                    if all(bool(eval(compile(ast.Expression(t), "<cond>", "eval"), {}, env)) == v for t, v in conds):  # noqa: S307 - abstract values only
+                        call = next(c for c in node.calls if (call_name(c) or "").endswith(f"parent.{meth}"))
+                        active.append(eval(compile(ast.Expression(call.args[0]), "<arg>", "eval"), {}, env))  # noqa: S307
+            except Exception as exc:  # a guard that cannot be evaluated on the abstraction: unknown idiom
+                raise AnalysisError(f"State.{meth}: propagation guard not evaluable on the abstract states ({type(exc).__name__}: {exc})")
+            canon = self_parent is not None and (other is None or other.parent is not self_parent)
+            want = other.parent if other is not None else None
+            if canon and len(active) == 1 and active[0] is want:
+                table[label] = "canonical"
+            elif not canon and not active:
+                table[label] = "canonical"
+            else:
+                table[label] = f"{len(active)} call(s)" + (f" passing {getattr(active[0], 'label', active[0])}" if active else "") + f", expected {'1 passing ' + str(getattr(want, 'label', want)) if canon else 'none'}"
+    return table
 
 
 def check_reentrancy(ctx):
